@@ -177,8 +177,6 @@ package geom
 //@   trusted
 //@ func GeometryCollection.PointOnSurface
 //@   trusted
-//@ func LineString.Densify
-//@   trusted
 //@ func MultiLineString.Densify
 //@   trusted
 //@ func Polygon.Densify
@@ -302,8 +300,6 @@ package geom
 //@   trusted
 //@ func GeometryCollection.MarshalJSON
 //@   trusted
-//@ func Coordinates.appendFloat64s
-//@   modifies dst
 
 // Validation internals (R-tree callbacks, maps): outside the subset; C03 lists
 // them as not decided.
